@@ -71,6 +71,12 @@ def gen_blocks(run):
               if route.endswith("hopdefault") and hop != size:
                 continue
               yield (route, n, size, hop, pad, ik)
+  # long inputs, large sizes and hops (beyond any internal batch or buffer size)
+  for n in (100, 257, 1000, 1024, 1025):
+    for size in (16, 64, 100, 128):
+      for hop in (1, 17, 64, 100, 128, 130):
+        for route in ("func-gen", "method", "func-list"):
+          yield (route, n, size, hop, "tuple", "int")
 
 
 def run_blocks(case):
